@@ -542,13 +542,27 @@ class Enumerator:
             _HOOK['enum'] = old_hook
             self.prog._self_cls_hint = old_hint
 
+    def _wrapper_of(self, finfo):
+        return self.prog.wrapper_of(finfo)
+
     def _run(self):
         self._stack = [self.finfo]
         env = self.const_env(self.finfo)
         env.update(self.env0)
         st = State(env=env)
         out = []
-        for s, status in self.block(self.finfo.node.body, st, []):
+        body = self.finfo.node.body
+        wrapped = self._wrapper_of(self.finfo)
+        if wrapped is not None:
+            # @decorator whose result is a nested wrapper calling the
+            # function: what runs is the wrapper, with the function bound
+            # to the decorator's parameter
+            wnode, pname = wrapped
+            fsym = self.fresh(self.finfo.node, 'f')
+            self.__dict__.setdefault('_decor_syms', set()).add(fsym.id)
+            st.env[pname] = fsym
+            body = wnode.body
+        for s, status in self.block(body, st, []):
             if status[0] in ('next', 'break', 'continue'):
                 oc = Outcome('end', None, getattr(self.finfo.node,
                                                   'end_lineno', 0),
@@ -599,6 +613,25 @@ class Enumerator:
                     return True
                 if (key_of(a), b.id) in self.__dict__.get('_notsent', ()):
                     return False
+                # a private module-level `object()` is only ever what the
+                # code itself hands around under that name: a value whose
+                # whole derivation never mentions the name is not it
+                try:
+                    sent = self._is_sentinel(self._stack[-1].module, b.id) \
+                        and self._sentinel_private(self._stack[-1].module,
+                                                   b.id)
+                except Exception:
+                    sent = False
+                if sent and not isinstance(a, ast.Name) or (
+                        sent and isinstance(a, ast.Name)
+                        and a.id.startswith('SYM_')):
+                    full = self.expand(a)
+                    if not any(isinstance(n, ast.Name) and n.id == b.id
+                               for n in ast.walk(full)) and not any(
+                            isinstance(n, ast.Name) and n.id.startswith(
+                                ('SYM_u', 'SYM_e', 'SYM_x'))
+                            for n in ast.walk(full)):
+                        return False
             if isinstance(op, ast.Is) and isinstance(b, ast.Constant) \
                     and b.value is None:
                 if isinstance(a, (ast.List, ast.Tuple, ast.Dict, ast.Set,
@@ -780,6 +813,45 @@ class Enumerator:
             isinstance(v, ast.Call) and isinstance(v.func, ast.Name) and \
             v.func.id == 'object' and not v.args
 
+    def _sentinel_private(self, module, name):
+        """The sentinel never gets into a container or an attribute: the
+        name only occurs as an operand of `is` / `is not`, as a call argument
+        (a default handed to .get / getattr / next) or as the value of a
+        plain local assignment."""
+        cache = self.__dict__.setdefault('_sent_private', {})
+        k = (module.name, name)
+        if k in cache:
+            return cache[k]
+        from .util import parent_map
+        ok = True
+        pm = parent_map(module.tree)
+        for n in ast.walk(module.tree):
+            if not (isinstance(n, ast.Name) and n.id == name
+                    and isinstance(n.ctx, ast.Load)):
+                continue
+            par = pm.get(n)
+            if isinstance(par, ast.Compare):
+                continue
+            if isinstance(par, ast.Call) and n in par.args:
+                continue
+            if isinstance(par, ast.Assign) and par.value is n and all(
+                    isinstance(t, ast.Name) for t in par.targets):
+                continue
+            if isinstance(par, ast.Return):
+                continue
+            ok = False
+        # ... and nothing outside the module imports it
+        for m in self.prog.units:
+            if m is module:
+                continue
+            if any(isinstance(x, ast.Attribute) and x.attr == name
+                   for x in ast.walk(m.tree)) or any(
+                    isinstance(x, ast.alias) and x.name == name
+                    for x in ast.walk(m.tree)):
+                ok = False
+        cache[k] = ok
+        return ok
+
     def _inline_target(self, call, gen=False):
         if not isinstance(call, ast.Call):
             return None
@@ -788,8 +860,10 @@ class Enumerator:
             if callee is None or callee in self._stack:
                 return None
             return callee
-        if self.closures and isinstance(call.func, ast.Name) and \
-                call.func.id.startswith('SYM_f'):
+        if (self.closures or (isinstance(call.func, ast.Name) and
+                              call.func.id in self.__dict__.get(
+                                  '_decor_syms', ()))) and isinstance(
+                call.func, ast.Name) and call.func.id.startswith('SYM_f'):
             d = self.defs.get(call.func.id)
             if isinstance(d, ast.FunctionDef) and not any(
                     isinstance(x, (ast.Yield, ast.YieldFrom))
@@ -1354,8 +1428,9 @@ class Enumerator:
                 calls += 1
             if isinstance(n, ast.IfExp) and found is None:
                 found = n
+                # its arms are evaluated only when chosen; its test decides
                 if any(isinstance(x, ast.Call) and not self._pure_expr(x)
-                       for x in ast.walk(n)):
+                       for x in ast.walk(n.test)):
                     calls += 1
                 return
             for c in ast.iter_child_nodes(n):
@@ -1479,6 +1554,22 @@ class Enumerator:
             dz = _dict_zip_as_comp(v)
             if dz is not None:
                 v = dz
+            # list(map(f, xs)) / tuple(map(f, xs)) is [f(x) for x in xs]
+            if isinstance(v, ast.Call) and isinstance(v.func, ast.Name) \
+                    and v.func.id in ('list', 'tuple') and len(
+                        v.args) == 1 and not v.keywords and isinstance(
+                            v.args[0], ast.Call) and isinstance(
+                                v.args[0].func, ast.Name) and \
+                    v.args[0].func.id == 'map' and len(
+                        v.args[0].args) == 2 and not v.args[0].keywords:
+                mx = ast.Name(id='_mx', ctx=ast.Load())
+                v = ast.copy_location(ast.ListComp(
+                    elt=ast.Call(func=v.args[0].args[0], args=[mx],
+                                 keywords=[]),
+                    generators=[ast.comprehension(
+                        target=ast.Name(id='_mx', ctx=ast.Store()),
+                        iter=v.args[0].args[1], ifs=[], is_async=0)]), v)
+                ast.fix_missing_locations(v)
         if self.comps and isinstance(v, (ast.ListComp, ast.GeneratorExp,
                                          ast.SetComp, ast.DictComp)) and \
                 1 <= len(v.generators) <= 3 and not any(
